@@ -183,9 +183,62 @@ func pinCampaign(r *ev.Run) {
 			r.Sample(map[string]any{"fingerprints": c.Fp, "servers": c.Srv, "expected": c.Outcome, "spelled": fps})
 		}
 	}
+	// 3. histories on ONE server: OwnConfigOnly says a call's fate is a function of its own
+	// fingerprint and the server's certificate, so whatever was done to the same server before
+	// (a successful pinned or unpinned connection that left a TLS session behind, a refusal)
+	// must not matter.  Expected fates are those of the single calls TLC emitted.
+	single := map[[2]string]string{}
+	for _, c := range cases {
+		for i := range c.Fp {
+			single[[2]string{c.Fp[i], c.Srv[i]}] = c.Outcome[i]
+		}
+	}
+	var fpKinds []string
+	seenKind := map[string]bool{}
+	for k := range single {
+		if !seenKind[k[0]] {
+			seenKind[k[0]] = true
+			fpKinds = append(fpKinds, k[0])
+		}
+	}
+	sort.Strings(fpKinds)
+	nsame := 0
+	for _, sk := range []string{"self", "chain", "trusted"} {
+		for _, f1 := range fpKinds {
+			for _, f2 := range fpKinds {
+				if r.Tier == "quick" && single[[2]string{f1, sk}] != "accepted" {
+					continue // quick: only histories that begin with a connection that worked
+				}
+				s, err := pin.NewServer(mkCert(sk))
+				if err != nil {
+					r.Inconclusive("%v", err)
+					return
+				}
+				hist := []string{f1, f2, f1, f2}
+				fps := make([]string, len(hist))
+				want := make([]string, len(hist))
+				for i, f := range hist {
+					fps[i] = pin.Fingerprint(f, s.Cert, rng)
+					want[i] = single[[2]string{f, sk}]
+				}
+				for i := range hist {
+					o := pin.Call(s, fps[i])
+					ncalls++
+					if o.Outcome != want[i] {
+						r.Violation(classify(want[i], o.Outcome)+":same-server-history", map[string]any{"mode": "same server", "server": sk, "calls_fp": hist, "call": i + 1,
+							"fingerprint": fps[i], "expected": want[i], "observed": o.Outcome, "error": fmt.Sprint(o.Err), "problem": o.Problem})
+						break
+					}
+				}
+				s.Close()
+				nsame++
+			}
+		}
+	}
+	r.Set("same_server_histories", nsame)
 	r.Add("evaluations", ncalls)
 	r.Add("distinct_nontrivial", len(distinct))
-	r.Add("traces_validated_against_impl", nseq+nconc)
+	r.Add("traces_validated_against_impl", nseq+nconc+nsame)
 	r.Set("histories", nseq)
 	r.Set("concurrent_sets", nconc)
 	r.Set("exhaustive", limit == len(keys))
